@@ -91,8 +91,15 @@ package sweep
 //@   nowrap
 //@   modifies l.position, l.currentFeeRate
 //@
+//@ extern func chainfee.NewSatPerKWeight
+//@   ensures fee >= 0 ==> result >= 0
+//@ extern func (*atomic.Int32) Load
+//@   ensures 0 <= result && result <= 1<<30
+//@
 //@ func (r *BumpRequest) MaxFeeRateAllowed
 //@   props C18
+//@   requires 0 <= r.MaxFeeRate && r.MaxFeeRate <= 1<<40 && 0 <= r.Budget
+//@   ensures result1 == nil ==> 0 <= result0 && result0 <= 1<<40
 //@   ensures result1 == nil ==> result0 <= r.MaxFeeRate && result0 <= ret(NewSatPerKWeight)
 //@   ensures result1 == nil ==> result0 == r.MaxFeeRate || result0 == ret(NewSatPerKWeight)
 //@   site call NewSatPerKWeight: assert arg(fee) == r.Budget && arg(wu) == retn(calcSweepTxWeight, 0) && retn(calcSweepTxWeight, 1) == nil
@@ -146,6 +153,8 @@ package sweep
 //@
 //@ func (t *TxPublisher) initializeFeeFunction
 //@   props C18
+//@   requires 0 <= req.MaxFeeRate && req.MaxFeeRate <= 1<<40 && 0 <= req.Budget && 0 <= req.DeadlineHeight
+//@   requires req.StartingFeeRate.isSome ==> 0 <= req.StartingFeeRate.some
 //@   site call NewLinearFeeFunction: assert arg(maxFeeRate) == retn(MaxFeeRateAllowed, 0) && retn(MaxFeeRateAllowed, 1) == nil &&
 //@        arg(confTarget) == ret(calcCurrentConfTarget) && arg(startingFeeRate) == req.StartingFeeRate
 //@   site call calcCurrentConfTarget: assert arg(deadline) == req.DeadlineHeight
